@@ -115,6 +115,101 @@ def reconnect_oracle():
     return out
 
 
+def late_requests(role, cause, kinds):
+    """requests issued at awkward moments around the loss of the connection: (a) from inside a subscriber's on_error while the
+    close sweep is running (a fall-back request), (b) after the connection is gone and before close().  After close() every
+    awaitable handed out must be resolved and every subscriber must have had exactly one terminal signal."""
+    import asyncio
+    from datetime import timedelta
+    from harness import sim
+    from rsocket.rsocket_client import RSocketClient
+    from rsocket.rsocket_server import RSocketServer
+    from rsocket.helpers import single_transport_provider
+    from rsocket.payload import Payload
+    from reactivestreams.subscriber import DefaultSubscriber
+    loop = sim.new_loop()
+    sim.patch_clock(loop)
+    T = sim.make_transport_class()
+    t = T(lenreq=True)
+    box = {}
+    futs = []          # (label, awaitable)
+    subs = []          # (label, subscriber)
+
+    class Sub(DefaultSubscriber):
+        def __init__(self, label, fallback=None):
+            super().__init__()
+            self.label, self.fallback, self.terminals = label, fallback, []
+            subs.append((label, self))
+
+        def on_next(self, value, is_complete=False):
+            if is_complete:
+                self.terminals.append('next-complete')
+
+        def on_complete(self):
+            self.terminals.append('complete')
+
+        def on_error(self, exception):
+            self.terminals.append('error')
+            if self.fallback:
+                self.fallback()
+
+    def issue(label):
+        ep = box['e']
+        for kind in kinds:
+            try:
+                if kind == 'rr':
+                    futs.append((label + ':rr', ep.request_response(Payload(b'x'))))
+                elif kind == 'rs':
+                    ep.request_stream(Payload(b'x')).subscribe(Sub(label + ':rs'))
+                else:
+                    ep.request_channel(Payload(b'x')).subscribe(Sub(label + ':rc'))
+            except Exception as e:      # refusing the call outright is a legitimate way of failing it
+                futs.append((label + ':refused:' + type(e).__name__, None))
+    try:
+        def mk():
+            if role == 'client':
+                box['e'] = RSocketClient(single_transport_provider(t), keep_alive_period=timedelta(seconds=1000),
+                                         max_lifetime_period=timedelta(seconds=5000))
+                asyncio.create_task(box['e'].connect())
+            else:
+                box['e'] = RSocketServer(t)
+        loop.run(mk)
+        loop.settle()
+        ep = box['e']
+        loop.run(lambda: ep.request_stream(Payload(b's')).subscribe(Sub('inflight:rs', fallback=lambda: issue('in-sweep'))))
+        loop.run(lambda: futs.append(('inflight:rr', ep.request_response(Payload(b'r')))))
+        loop.settle()
+        if cause == 'eof':
+            t.inject_eof()
+        elif cause == 'error':
+            t.inject_error()
+        else:
+            loop.run(lambda: asyncio.create_task(ep.close()))
+        loop.settle()
+        loop.run(lambda: issue('after-loss'))
+        loop.settle()
+        loop.run(lambda: asyncio.create_task(ep.close()))
+        loop.settle()
+        pending = [l for l, f in futs if f is not None and not f.done()]
+        silent = [l for l, sb in subs if len(sb.terminals) != 1]
+        return {'pending': pending, 'terminals_not_one': [(l, sb.terminals) for l, sb in subs if len(sb.terminals) != 1],
+                'issued': [l for l, _ in futs] + [l for l, _ in subs], 'bad': bool(pending or silent)}
+    finally:
+        loop.finish()
+
+
+def late_requests_oracle():
+    out = []
+    for role in ('client', 'server'):
+        for cause in ('eof', 'error', 'close'):
+            for kinds in (('rr',), ('rr', 'rs'), ('rs', 'rc', 'rr')):
+                r = late_requests(role, cause, kinds)
+                if r['bad']:
+                    out.append({'what': 'request issued around the loss of the connection is left without an outcome after close()',
+                                'late_case': [role, cause, list(kinds)], 'detail': repr(r)[:400]})
+    return out
+
+
 def _descs(ctx, n):
     return E.mk_descs(ctx.rng, n, hostile=0.0, with_close=lambda r: r.random() < 0.75, steps=(3, 16), frag=0.2,
                       close_mode=lambda r: r.choice(['eof', 'error', 'close', 'cut']), race=0.5,
@@ -130,6 +225,8 @@ def correspond(ctx, corr, model_ok):
         corr.count('closed:' + str(getattr(sc, 'close_used', 'no')))
         corr.count('fragmented', sc.fragmented)
     corr.oracle_failures.extend(reconnect_oracle())
+    corr.oracle_failures.extend(late_requests_oracle())
+    corr.count('requests issued inside the close sweep / after the loss, then close()', 18)
     corr.count('reconnect windows with a request per loop iteration', 24)
     if model_ok:
         E.trace_corr(corr, runs, KEEP, KEYS, 'C07 signals vs model/Endpoint.v')
@@ -148,6 +245,7 @@ def search(ctx, budget):
         for sc in runs:
             found.extend(oracle(sc))
         found.extend(reconnect_oracle())
+        found.extend(late_requests_oracle())
     return found
 
 
@@ -157,5 +255,8 @@ def replay(obj):
         cs, ns, cause = case['reconnect_case']
         r = reconnect_requests(cs, ns, cause)
         return bool(r['lost']) or not r['reconnected']
+    if 'late_case' in case:
+        role, cause, kinds = case['late_case']
+        return late_requests(role, cause, tuple(kinds))['bad']
     runs, crashed = E.run_all([case['scenario']])
     return bool(crashed) or any(oracle(sc) for sc in runs)
